@@ -164,6 +164,15 @@ pub struct Runner {
     pub poisoned: bool,
     pub last_shape: (u32, u32, u32),
     pub last_report: Option<fileck::Report>,
+    /// fault to inject into the next commit (armed right before `commit()` is called)
+    pub fault_next_commit: Option<crate::iosim::Fault>,
+    /// count the I/O calls of the next commit without injecting anything
+    pub count_next_commit: bool,
+    pub last_commit_kinds: Vec<crate::iosim::Kind>,
+    pub last_fault_fired: bool,
+    /// set when a commit with an injected fault returned an error: the state it would have produced
+    pub pending_post: Option<BucketM>,
+    pub last_commit_error: Option<String>,
 }
 
 impl Drop for Runner {
@@ -235,6 +244,12 @@ impl Runner {
             poisoned: false,
             last_shape: (0, 0, 0),
             last_report: None,
+            fault_next_commit: None,
+            count_next_commit: false,
+            last_commit_kinds: vec![],
+            last_fault_fired: false,
+            pending_post: None,
+            last_commit_error: None,
         })
     }
 
@@ -257,6 +272,12 @@ impl Runner {
             poisoned: false,
             last_shape: (0, 0, 0),
             last_report: None,
+            fault_next_commit: None,
+            count_next_commit: false,
+            last_commit_kinds: vec![],
+            last_fault_fired: false,
+            pending_post: None,
+            last_commit_error: None,
         })
     }
 
@@ -471,7 +492,36 @@ impl Runner {
                     return out;
                 }
                 if *commit {
-                    match guarded(move || tx.commit()) {
+                    let planned = self.fault_next_commit.is_some() || self.count_next_commit;
+                    let saved_plan = if planned { crate::iosim::take_plan() } else { None };
+                    if planned {
+                        crate::iosim::install_plan(crate::iosim::Plan { armed: true, fault: self.fault_next_commit.take(), ..Default::default() });
+                        self.count_next_commit = false;
+                    }
+                    let res = guarded(move || tx.commit());
+                    self.last_fault_fired = false;
+                    if planned {
+                        if let Some(p) = crate::iosim::take_plan() {
+                            self.last_commit_kinds = p.call_kinds;
+                            self.last_fault_fired = p.fault_fired;
+                        }
+                        if let Some(p) = saved_plan {
+                            crate::iosim::install_plan(p);
+                        }
+                    }
+                    let fired = self.last_fault_fired;
+                    match res {
+                        Ok(Ok(())) if fired => {
+                            out.push(Violation::new("commit_ok_despite_io_error", "an I/O call of this commit was made to fail, yet commit() returned Ok"));
+                            self.model = model;
+                            self.stats.commits += 1;
+                        }
+                        Ok(Err(e)) if fired => {
+                            // expected: the outcome (pre or post) is resolved by the caller
+                            self.last_commit_error = Some(format!("{:?}", e));
+                            self.pending_post = Some(model);
+                            return out;
+                        }
                         Ok(Ok(())) => {
                             self.model = model;
                             self.stats.commits += 1;
